@@ -12,7 +12,7 @@
 (*   Rotor    entry = the relay (a validator)                              *)
 (*   Turbine  entry = a tree [root, kids] which is TreeOf(ord, fanout) for *)
 (*            a permutation ord of ALL validators (the leader is in it)    *)
-(* Pure operators over a run-state record, shared by the model-checking    *)
+(* Pure operators over a run-state value, shared by the model-checking     *)
 (* module (one global function, every delivery order) and by the trace     *)
 (* specification (global function inferred from the recorded calls).       *)
 (***************************************************************************)
@@ -27,7 +27,7 @@ LeaderOf(slot, n) == (slot \div SlotsPerWindow) % n
 ---------------------------------------------------------------------------
 (* Turbine trees                                                           *)
 \* ord: sequence (1-based) of validators; tree position p (0-based) holds ord[p+1];
-\* position p has children at positions p*f+1 .. p*f+f (TurbineTree::new).
+\* position p has its children at positions p*f+1 .. p*f+f (TurbineTree::new).
 PosKids(ord, f, p) == {ord[q + 1] : q \in {x \in (p * f + 1)..(p * f + f) : x < Len(ord)}}
 PosOf(ord, v) == (CHOOSE q \in 1..Len(ord) : ord[q] = v) - 1
 TreeOf(ord, f) ==
@@ -35,6 +35,51 @@ TreeOf(ord, f) ==
    kids |-> [v \in {ord[q] : q \in 1..Len(ord)} |-> PosKids(ord, f, PosOf(ord, v))]]
 
 Perms(S) == {o \in [1..Cardinality(S) -> S] : \A a, b \in 1..Cardinality(S) : a # b => o[a] # o[b]}
+
+(* Deciding "t = TreeOf(ord, f) for SOME permutation ord of Vals(n)" without enumerating        *)
+(* permutations.  A tree filled in level order is heap-shaped: each subtree is heap-shaped and  *)
+(* determined by its size, and the subtree sizes of siblings do not increase from left to       *)
+(* right.  So, if any ordering exists, the level-order walk that visits siblings by decreasing  *)
+(* subtree size is one.                                                                         *)
+RECURSIVE EnumSet(_)
+EnumSet(S) == IF S = {} THEN <<>> ELSE LET c == CHOOSE x \in S : TRUE IN <<c>> \o EnumSet(S \ {c})
+RECURSIVE Walk(_, _, _, _)
+\* level-order walk from the root, siblings in any order; stops when more than `bound` nodes
+Walk(ord, p, kids, bound) ==
+  IF p >= Len(ord) \/ Len(ord) > bound THEN ord
+  ELSE LET v == ord[p + 1]
+       IN Walk(ord \o (IF v \in DOMAIN kids THEN EnumSet(kids[v]) ELSE <<>>), p + 1, kids, bound)
+
+\* root + kids is a spanning tree of Vals(n): the walk meets every validator exactly once
+IsSpanningTree(t, n) ==
+  /\ t.root \in Vals(n)
+  /\ DOMAIN t.kids = Vals(n)
+  /\ LET w == Walk(<<t.root>>, 0, t.kids, n)
+     IN Len(w) = n /\ {w[q] : q \in 1..n} = Vals(n)
+
+RECURSIVE SubSize(_, _), SumSizes(_, _)
+SumSizes(kids, S) ==
+  IF S = {} THEN 0 ELSE LET c == CHOOSE x \in S : TRUE IN SubSize(kids, c) + SumSizes(kids, S \ {c})
+SubSize(kids, v) == 1 + SumSizes(kids, kids[v])
+
+RECURSIVE BySize(_, _)
+BySize(S, size) ==
+  IF S = {} THEN <<>>
+  ELSE LET c == CHOOSE x \in S : \A y \in S : size[x] > size[y] \/ (size[x] = size[y] /\ x <= y)
+       IN <<c>> \o BySize(S \ {c}, size)
+
+RECURSIVE CanonWalk(_, _, _, _)
+CanonWalk(ord, p, kids, size) ==
+  IF p >= Len(ord) THEN ord
+  ELSE CanonWalk(ord \o BySize(kids[ord[p + 1]], size), p + 1, kids, size)
+
+CanonOrd(t, n) ==
+  LET size == [v \in Vals(n) |-> SubSize(t.kids, v)]
+  IN CanonWalk(<<t.root>>, 0, t.kids, size)
+
+IsTurbineTree(t, n, f) ==
+  /\ IsSpanningTree(t, n)
+  /\ TreeOf(CanonOrd(t, n), f) = t
 
 ---------------------------------------------------------------------------
 (* Routing rules: destinations of one call, given the entry of the global  *)
@@ -55,62 +100,55 @@ ForwardDests(kind, n, L, v, e) ==
 IsRelayBroadcast(kind, v, e) == kind = "rotor" /\ v = e
 
 ---------------------------------------------------------------------------
-(* One dissemination run.                                                  *)
-(*   net : bag of in-flight messages <<from, to, sh>>  (function msg -> count >= 1)   *)
-(*   rcv : <<v, sh>> -> number of copies of sh received by v                           *)
-(*   led : shreds the leader has sent                                                  *)
-(*   bc  : sh -> sequence of validators that made a relay broadcast of sh (Rotor)      *)
-EmptyRun == [net |-> <<>>, rcv |-> <<>>, led |-> {}, bc |-> <<>>]
+(* One dissemination run: a function  sh -> per-shred state, defined for   *)
+(* the shreds the leader has sent.                                         *)
+(*   net : bag of in-flight copies <<from, to>>  (function -> count >= 1)  *)
+(*   rcv : validator -> number of copies received                          *)
+(*   bc  : sequence of validators that made a relay broadcast (Rotor)      *)
+EmptyRun == <<>>
+Led(st) == DOMAIN st
 
-BagAdd(b, x) == IF x \in DOMAIN b THEN [b EXCEPT ![x] = @ + 1]
-                ELSE [y \in DOMAIN b \cup {x} |-> IF y = x THEN 1 ELSE b[y]]
 BagDel(b, x) == IF b[x] > 1 THEN [b EXCEPT ![x] = @ - 1]
                 ELSE [y \in DOMAIN b \ {x} |-> b[y]]
 BagCount(b, x) == IF x \in DOMAIN b THEN b[x] ELSE 0
-\* add one message from `from` to each destination in the set `dests`
-BagAddAll(b, from, dests, sh) ==
-  LET new == {<<from, w, sh>> : w \in dests}
+\* one more copy from `from` to each destination in the set `dests`
+BagAddAll(b, from, dests) ==
+  LET new == {<<from, w>> : w \in dests}
   IN [y \in DOMAIN b \cup new |-> BagCount(b, y) + (IF y \in new THEN 1 ELSE 0)]
 
-InFlight(st) == DOMAIN st.net
-Quiet(st) == DOMAIN st.net = {}
+InFlight(st) == UNION {{<<m[1], m[2], sh>> : m \in DOMAIN st[sh].net} : sh \in DOMAIN st}
+HasMsg(st, sh, from, to) == sh \in DOMAIN st /\ <<from, to>> \in DOMAIN st[sh].net
+Quiet(st) == \A sh \in DOMAIN st : DOMAIN st[sh].net = {}
 
-\* the leader originates sh: one message per destination
-LeaderSend(st, L, sh, dests) ==
-  [st EXCEPT !.net = BagAddAll(@, L, dests, sh), !.led = @ \cup {sh}]
+\* the leader L originates sh: one copy per destination
+LeaderSend(st, n, L, sh, dests) ==
+  [x \in DOMAIN st \cup {sh} |->
+     IF x = sh THEN [net |-> BagAddAll(<<>>, L, dests), rcv |-> [v \in Vals(n) |-> 0], bc |-> <<>>]
+     ELSE st[x]]
 
-\* node m[2] takes message m = <<from, to, sh>> off the network, and (atomically, as in
+\* validator `to` takes the copy <<from, to>> of sh off the network and (atomically, as in
 \* handle_disseminator_shred) forwards it to `dests`
-Deliver(st, m, dests, relayBroadcast) ==
-  [st EXCEPT !.net = BagAddAll(BagDel(@, m), m[2], dests, m[3]),
-             !.rcv = BagAdd(@, <<m[2], m[3]>>),
-             !.bc  = IF relayBroadcast
-                     THEN (IF m[3] \in DOMAIN @ THEN [@ EXCEPT ![m[3]] = Append(@, m[2])]
-                           ELSE [y \in DOMAIN @ \cup {m[3]} |-> IF y = m[3] THEN <<m[2]>> ELSE @[y]])
-                     ELSE @]
-
-Got(st, v, sh) == BagCount(st.rcv, <<v, sh>>)
-Broadcasts(st, sh) == IF sh \in DOMAIN st.bc THEN st.bc[sh] ELSE <<>>
+Deliver(st, sh, from, to, dests, relayBroadcast) ==
+  [st EXCEPT ![sh] = [net |-> BagAddAll(BagDel(@.net, <<from, to>>), to, dests),
+                      rcv |-> [@.rcv EXCEPT ![to] = @ + 1],
+                      bc  |-> IF relayBroadcast THEN Append(@.bc, to) ELSE @.bc]]
 
 ---------------------------------------------------------------------------
-(* C16, delivery part: predicates of a quiescent run (nothing in flight). *)
-\* every validator other than the leader holds every shred the leader sent
-EveryoneReceives(st, n, L) ==
-  \A sh \in st.led : \A v \in Vals(n) \ {L} : Got(st, v, sh) >= 1
-\* ... exactly once (the leader sees its own shred at most once: when it is the relay /
+(* C16, delivery part: predicates on the per-shred state s = st[sh] once   *)
+(* nothing is in flight.                                                   *)
+\* every validator other than the leader holds the shred
+EveryoneReceives(s, n, L) == \A v \in Vals(n) \ {L} : s.rcv[v] >= 1
+\* ... exactly one copy (the leader sees its own shred at most once: when it is the relay /
 \* part of the tree)
-ExactlyOnce(st, n, L) ==
-  \A sh \in st.led : \A v \in Vals(n) : IF v = L THEN Got(st, v, sh) <= 1 ELSE Got(st, v, sh) = 1
+ExactlyOnce(s, n, L) == \A v \in Vals(n) : IF v = L THEN s.rcv[v] <= 1 ELSE s.rcv[v] = 1
 \* safety form, true in every state of a run: nobody ever gets a second copy
-NeverTwice(st) == \A x \in DOMAIN st.rcv : st.rcv[x] <= 1
-\* Rotor: exactly one relay broadcast per shred
-OneRelayBroadcast(st) == \A sh \in st.led : Len(Broadcasts(st, sh)) = 1
-\* nothing is received that the leader did not send
-OnlyLeaderShreds(st) == \A x \in DOMAIN st.rcv : x[2] \in st.led
+NeverTwice(s, n) == \A v \in Vals(n) : s.rcv[v] <= 1
+\* Rotor: exactly one relay broadcast
+OneRelayBroadcast(s) == Len(s.bc) = 1
 
-Delivered(kind, st, n, L) ==
-  /\ EveryoneReceives(st, n, L)
-  /\ ExactlyOnce(st, n, L)
-  /\ (kind = "rotor" => OneRelayBroadcast(st))
+Delivered(kind, s, n, L) ==
+  /\ EveryoneReceives(s, n, L)
+  /\ ExactlyOnce(s, n, L)
+  /\ (kind = "rotor" => OneRelayBroadcast(s))
 
 =============================================================================
